@@ -126,6 +126,8 @@ func C07(c *Ctx) {
 	r.Rule("R07.3", "no announcement of a failed transaction: in applyTx the interchain counter (delivery set) is fed from a transaction's events only across an edge on which the receipt is known to be successful (or the documented begin-failure notification).")
 	r.Rule("R07.5", "read-only execution: in ApplyReadonlyTransactions every applyTransaction is followed by ledger.Clear() on all paths, and nothing reachable from it persists (PersistBlockData, FlushDirtyData, Commit, PersistExecutionResult, account-cache fill, feeds).")
 	r.Rule("R07.6", "the undo restores what was recorded (shared with C13 R13.6): no function of internal/ledger removes an entry from an account's dirty set, and storageChange.revert stores the recorded previous value, nil included, on every path - otherwise a reverted transaction leaves the layers below showing through instead of the value the block had before it.")
+	r.Rule("R07.10", freshUndoText)
+	c.freshUndo("R07.10")
 	r.Rule("R07.9", journalResetText)
 	c.journalReset("R07.9")
 	c.c13Undo("R07.6")
